@@ -88,7 +88,7 @@ Verdict(hsH, i, j, r) ==
 
 Case(si, f, i, j, kind, a, hsH, r) ==
   LET v == Verdict(hsH, i, j, r) IN
-  [shape |-> si, f |-> f, i |-> i, j |-> j, kind |-> kind, comp |-> a[1], op |-> a[2], pos |-> a[3], go |-> v.go, truth |-> v.truth]
+  [shape |-> si, f |-> f, q |-> 0, i |-> i, j |-> j, kind |-> kind, comp |-> a[1], op |-> a[2], pos |-> a[3], go |-> v.go, truth |-> v.truth]
 
 NoAlt == <<"", "", 0>>
 CasesFor(si) ==
@@ -106,20 +106,22 @@ CasesFor(si) ==
           : f \in 2..N}
     : ij \in (1..N) \X (1..N)}
 
-\* split-view server (Proofs!HistPoison): the trusted state i is clean (p beyond its tree); the response about j >= i is
-\* what the generator yields over the poisoned tree.  The new state must be refused when its tree disowns a transaction
-\* the client already holds in its chain: S.bl < p <= min(i, T.bl) (what the linear advance proof is for).
+\* split-view server (Proofs!HistPoison): from transaction q on, the headers embed roots of a tree whose leaf p < q is foreign; the
+\* response about j >= i is what the generator yields over that tree.  The trusted state i is clean (it embeds the honest tree, or
+\* p is beyond its tree).  The new state must be refused when its tree disowns a transaction the client already holds in its
+\* chain: j >= q and p <= min(i, T.bl) (what the consistency proof and the linear advance proof are for).
 PoisonCasesFor(si) ==
   UNION {
-    LET hp == HistPoison(Shapes[si], VarH, N, p)  tree == TreeLeaves(hp, p) IN
+    LET p == pq[1]  q == pq[2]
+        hp == HistPoison(Shapes[si], VarH, N, p, q)  tree == TreeLeaves(hp, p) IN
     {LET i == c[1]  j == c[2]
          r == GenDualT(hp, tree, i, j, c[3])
          trusted == HAlh(hp[i])  newAlh == HAlh(r.tgtHdr) IN
-     [shape |-> si, f |-> p, i |-> i, j |-> j, kind |-> "poison", comp |-> IF c[3] THEN "tblFromTree" ELSE "tblFromChain", op |-> "", pos |-> 0,
+     [shape |-> si, f |-> p, q |-> q, i |-> i, j |-> j, kind |-> "poison", comp |-> IF c[3] THEN "tblFromTree" ELSE "tblFromChain", op |-> "", pos |-> 0,
       go |-> VerifyDual(r, i, j, trusted, newAlh),
-      truth |-> ChainLinked(trusted, newAlh, j - i) /\ ~(hp[i].bl < p /\ p <= MinN(i, hp[j].bl))]
-     : c \in {c \in (1..N) \X (1..N) \X BOOLEAN : c[1] <= c[2] /\ p > hp[c[1]].bl}}
-    : p \in 1..N}
+      truth |-> ChainLinked(trusted, newAlh, j - i) /\ ~(j >= q /\ p <= MinN(i, hp[j].bl))]
+     : c \in {c \in (1..N) \X (1..N) \X BOOLEAN : c[1] <= c[2] /\ (c[1] < q \/ p > hp[c[1]].bl)}}
+    : pq \in {pq \in (1..N) \X (2..N) : pq[1] < pq[2]}}
 
 AllCases == UNION {CasesFor(si) \cup PoisonCasesFor(si) : si \in ShapeLo..MinN(ShapeHi, Len(Shapes))}
 
